@@ -163,43 +163,57 @@ def case_ogden_roxburgh_history(ctx):
     ctx.equal("response_depends_on_history_only_through_stored_maximum", np.asarray(mat.gradient([q(G), np.asarray(svs[1]).copy()])[0]), np.asarray(out_a[0]))
 
 
-def case_plasticity(ctx):
+def case_plasticity(ctx, npoints=1):
+    """one stress update from an arbitrary admissible stored state, for a batch of quadrature points
+    (with 2 points every combination elastic/plastic is a path: partial yielding)"""
     lm, mu = ctx.var("lmbda", 0.5, 3), ctx.var("mu", 0.5, 2)
     sy, K = ctx.var("sy", 0.05, 0.5), ctx.var("K", 0.1, 1)
     mat = fem.MaterialStrain(fem.linear_elastic_plastic_isotropic_hardening, λ=lm, μ=mu, σy=sy, K=K, statevars=(1, (3, 3)))
-    F = Fvar(ctx, 3, spread=0.3)
     dt = object if ctx.sym else float
-    alpha = ctx.var("alpha_n", 0, 0.5)
-    parts = [np.asarray([alpha], dtype=dt), np.asarray(ctx.symmetric("epn", 3, -0.1, 0.1), dtype=dt).reshape(-1), np.asarray(ctx.symmetric("en", 3, -0.1, 0.1), dtype=dt).reshape(-1), np.asarray(ctx.symmetric("sn", 3, -0.3, 0.3), dtype=dt).reshape(-1)]
-    sv = np.concatenate(parts).reshape(-1, 1, 1)
-    out = mat.gradient([q(F), sv.copy()])
-    sig = np.asarray(out[0])[:, :, 0, 0]
-    new = np.asarray(out[-1]).reshape(-1)
-    alpha_new = new[0]
-    tr = sig[0, 0] + sig[1, 1] + sig[2, 2]
-    s = sig - tr / 3 * np.eye(3, dtype=int)
-    ss = sum(s[i, j] * s[i, j] for i in range(3) for j in range(3))
-    lim = (sy + K * alpha_new)
+    Fs, svs, alphas, parts_all = [], [], [], []
+    for k in range(npoints):
+        F = Fvar(ctx, 3, name="F%d" % k, spread=0.3)
+        alpha = ctx.var("alpha_n%d" % k, 0, 0.5)
+        parts = [np.asarray([alpha], dtype=dt), np.asarray(ctx.symmetric("epn%d" % k, 3, -0.1, 0.1), dtype=dt).reshape(-1), np.asarray(ctx.symmetric("en%d" % k, 3, -0.1, 0.1), dtype=dt).reshape(-1), np.asarray(ctx.symmetric("sn%d" % k, 3, -0.3, 0.3), dtype=dt).reshape(-1)]
+        Fs.append(F)
+        alphas.append(alpha)
+        parts_all.append(parts)
+        svs.append(np.concatenate(parts))
+    Fq = np.stack(Fs, axis=-1).reshape(3, 3, 1, npoints)
+    sv = np.stack(svs, axis=-1).reshape(-1, 1, npoints)
+    out = mat.gradient([Fq, sv.copy()])
+    c = np.sqrt(2.0 / 3.0)
     c23 = 2.0 / 3.0
     box = {"atom:root": (0.04, 40)}  # on the plastic path |s_trial| > sqrt(2/3) (sy + K alpha) >= 0.0408
-    if ctx.sym:
-        elastic = alpha_new.n is alpha.n
-    else:
-        elastic = float(alpha_new) == float(alpha)
-    ctx.check_concrete("branch_reached", True, "elastic" if elastic else "plastic")
-    if elastic:
-        # state unchanged; the yield condition is what the model's own test decided on this path
-        ctx.holds("yield_condition_after_update", [ss <= c23 * lim * lim * (1 + 1e-9)])
-        ctx.equal("elastic_step_leaves_plastic_state_unchanged", new[:10], np.concatenate([parts[0], parts[1]]))
-    else:
-        # return mapping: the updated stress lies ON the updated yield surface
-        ctx.equal("stress_on_yield_surface_after_plastic_update", ss, c23 * lim * lim, tol=1e-9, box=box)
-        ctx.holds("equivalent_plastic_strain_never_decreases", [alpha_new >= alpha])
-    # stored strain/stress are the new total strain and the returned stress
-    ctx.equal("stored_stress_is_returned_stress", new[19:28], sig.reshape(-1))
-    H = F - np.eye(3, dtype=int)
-    eps = (H + H.T) / 2
-    ctx.equal("stored_strain_is_total_strain", new[10:19], eps.reshape(-1))
+    for k in range(npoints):
+        sig = np.asarray(out[0])[:, :, 0, k]
+        new = np.asarray(out[-1])[:, 0, k]
+        alpha, alpha_new = alphas[k], new[0]
+        tr = sig[0, 0] + sig[1, 1] + sig[2, 2]
+        s = sig - tr / 3 * np.eye(3, dtype=int)
+        ss = sum(s[i, j] * s[i, j] for i in range(3) for j in range(3))
+        lim = sy + K * alpha_new
+        if ctx.sym:
+            from symnp.sym import S
+
+            elastic = alpha_new.n is alpha.n
+            norm_s = S(ss).sqrt()
+        else:
+            elastic = float(alpha_new) == float(alpha)
+            norm_s = float(np.sqrt(ss))
+        ctx.check_concrete("branch_reached[%d]" % k, True, "elastic" if elastic else "plastic")
+        if elastic:
+            # state unchanged; the yield condition is what the model's own test decided for this point
+            ctx.holds("yield_condition_after_update[%d]" % k, [norm_s <= c * lim * (1 + 1e-9)])
+            ctx.equal("elastic_step_leaves_plastic_state_unchanged[%d]" % k, new[:10], np.concatenate([parts_all[k][0], parts_all[k][1]]))
+        else:
+            # return mapping: the updated stress lies ON the updated yield surface
+            ctx.equal("stress_on_yield_surface_after_plastic_update[%d]" % k, ss, c23 * lim * lim, tol=1e-9, box=box)
+            ctx.holds("equivalent_plastic_strain_never_decreases[%d]" % k, [alpha_new >= alpha])
+        ctx.equal("stored_stress_is_returned_stress[%d]" % k, new[19:28], sig.reshape(-1))
+        H = Fs[k] - np.eye(3, dtype=int)
+        eps = (H + H.T) / 2
+        ctx.equal("stored_strain_is_total_strain[%d]" % k, new[10:19], eps.reshape(-1))
 
 
 def cases(tier):
@@ -207,5 +221,6 @@ def cases(tier):
         ("step", case_step, {"nsub": 3, "max_paths": 16}),
         ("job", case_job, {"max_paths": 16}),
         ("ogden_roxburgh_history", case_ogden_roxburgh_history, {"max_paths": 32}),
-        ("plasticity", case_plasticity, {"max_paths": 8}),
+        ("plasticity", case_plasticity, {"npoints": 1, "max_paths": 8}),
+        ("plasticity", case_plasticity, {"npoints": 2, "max_paths": 8}),
     ]
